@@ -359,6 +359,8 @@ def split_case(draw):
     c["N"] = N
     # output step: a divisor-free choice; target = m * s_out inside the span
     s_out = draw(st.integers(3, 3 * h))
+    if draw(st.integers(0, 5)) == 0:
+        s_out = h      # an output step asked explicitly that happens to equal the propagator's own step (another object)
     m = draw(st.integers(1, max(1, (N * h) // s_out)))
     c["s_out"] = s_out
     c["m"] = m
